@@ -63,6 +63,29 @@ func (c *Ctx) entryLocks() map[*ssa.Function]map[string]locks.Mode {
 				continue
 			}
 			sites := c.P.Callers(fn)
+			// a call through a synthetic wrapper (the thunk of a method expression stored in a table, a bound-method
+			// closure) is made where the wrapper is called
+			for i := 0; i < len(sites); i++ {
+				w := sites[i].Parent()
+				if w.Synthetic == "" || w.Parent() != nil {
+					continue
+				}
+				if _, known := el[w]; known {
+					continue
+				}
+				if n := c.P.CG.Nodes[w]; n != nil {
+					var outer []ssa.CallInstruction
+					for _, e := range n.In {
+						if e.Site != nil {
+							outer = append(outer, e.Site)
+						}
+					}
+					if len(outer) > 0 {
+						sites = append(append(append([]ssa.CallInstruction(nil), sites[:i]...), outer...), sites[i+1:]...)
+						i--
+					}
+				}
+			}
 			var acc map[string]locks.Mode
 			n := 0
 			for _, s := range sites {
